@@ -1,16 +1,18 @@
 // Harness for C19: drives the real middlewares of message/router/middleware.
 //
-//	REQ stack <mws> <ctx>/<cid>/<delay> <script>     OBS <result> calls=<per call> after=<message afterwards>
+//	REQ stack <mws> <message> <script>     OBS <result> calls=<per call> after=<message afterwards>
 //	REQ delay <init>:<max>:<num>:<den> <pre> <seq>    OBS <delay metadata after each call>
-//	REQ throttle <n> <count> <duration ns>            OBS starts=<n> spaced=<1|0>
+//	REQ throttle <n> <count> <duration ns> <callers>  OBS starts=<n> spaced=<1|0>
 //
 // mws    : "-" or comma separated, outermost first: T (Timeout 1h) T0 (Timeout 0) C (CorrelationID) R (Recoverer)
 //
 //	I:<hex>/<hex>… (IgnoreErrors with the listed error texts) A (InstantAck) H (Throttle) B (CircuitBreaker, never trips)
 //	D:<init>:<max>:<num>:<den> (DelayOnError, ns, Multiplier=num/den)  Y:<MaxRetries> (Retry)
 //
+// message: <ctx>/<cid>/<delay>/<hcid>
 // ctx    : live | cancelled | deadline       cid: n (no key) | <hex> ("-" = key present, empty)
 // delay  : n | ns<int> | raw<hex>             (the _watermill_delayed_for metadata before the call)
+// hcid   : n | <hex>                          (the handler overwrites the incoming correlation id with this value)
 // script : results of the handler per attempt, ';' separated, the last one repeats:
 //
 //	ok/<outs>   er/<err>/<outs>   pn/<pval>
@@ -489,8 +491,16 @@ func runStack(req string) string {
 	}
 	env := &caseEnv{errSpecs: map[error]string{}}
 	mp := strings.Split(f[2], "/")
-	if len(mp) != 3 {
+	if len(mp) != 4 {
 		return "bad-request"
+	}
+	hcid, setHcid := "", mp[3] != "n"
+	if setHcid {
+		v, err := unhex(mp[3])
+		if err != nil {
+			return "bad-request"
+		}
+		hcid = v
 	}
 	script, err := parseScript(f[3], env)
 	if err != nil {
@@ -543,6 +553,9 @@ func runStack(req string) string {
 		default:
 		}
 		calls = append(calls, b01(dl)+b01(ctx.Err() != nil)+b01(acked)+"/"+delayCanon(m.Metadata))
+		if setHcid {
+			m.Metadata.Set(middleware.CorrelationIDMetadataKey, hcid)
+		}
 		r := script[len(script)-1]
 		if attempt < len(script) {
 			r = script[attempt]
@@ -679,31 +692,51 @@ func runDelay(req string) string {
 
 func runThrottle(req string) string {
 	f := strings.Fields(req)
-	if len(f) != 4 || f[0] != "throttle" {
+	if len(f) != 5 || f[0] != "throttle" {
 		return "bad-request"
 	}
 	n, e1 := strconv.Atoi(f[1])
 	count, e2 := strconv.ParseInt(f[2], 10, 64)
 	dur, e3 := strconv.ParseInt(f[3], 10, 64)
-	if e1 != nil || e2 != nil || e3 != nil || n < 1 || n > 1000 || count < 1 || dur < 1 || dur/count < 1 {
+	callers, e4 := strconv.Atoi(f[4])
+	if e1 != nil || e2 != nil || e3 != nil || e4 != nil || n < 1 || n > 1000 || count < 1 || dur < 1 || dur/count < 1 || callers < 1 || callers > n {
 		return "bad-request"
 	}
 	period := time.Duration(dur) / time.Duration(count)
 	th := middleware.NewThrottle(count, time.Duration(dur))
+	var mu sync.Mutex
 	starts := 0
 	var last time.Time
 	h := th.Middleware(func(m *message.Message) ([]*message.Message, error) {
-		last = time.Now()
+		now := time.Now()
+		mu.Lock()
 		starts++
+		if now.After(last) {
+			last = now
+		}
+		mu.Unlock()
 		return nil, nil
 	})
-	msg := message.NewMessage("in", nil)
-	// t0 is taken before the first call (≤ the first start), `last` inside the n-th handler call (≥ the n-th
-	// start): last - t0 ≥ start_n - start_1 ≥ (n-2)·period whatever the load of the machine.
+	// t0 is taken before the first call (≤ the first start), `last` inside the handler (≥ the last start):
+	// last - t0 ≥ start_n - start_1 ≥ (n-2)·period whatever the load of the machine and however the
+	// callers (one Throttle is shared by several handlers) interleave.
 	t0 := time.Now()
-	for i := 0; i < n; i++ {
-		h(msg)
+	var wg sync.WaitGroup
+	for c := 0; c < callers; c++ {
+		k := n / callers
+		if c < n%callers {
+			k++
+		}
+		wg.Add(1)
+		go func() {
+			defer wg.Done()
+			msg := message.NewMessage("in", nil)
+			for i := 0; i < k; i++ {
+				h(msg)
+			}
+		}()
 	}
+	wg.Wait()
 	bound := time.Duration(0)
 	if n > 2 {
 		bound = time.Duration(n-2) * period
